@@ -348,9 +348,19 @@ func C14_Marked() {
 	vf.Reach("marked")
 }
 
-type hostErr struct{ code int }
+type hostErr struct {
+	code  int
+	cause error
+}
 
 func (e *hostErr) Error() string { return "host failure" }
+func (e *hostErr) Unwrap() error { return e.cause }
+
+// causes a host error may carry in its Unwrap chain: nothing, another host
+// error, or any of the engine's own error values
+var hostCauses = []error{nil, errors.New("io failure"), tengo.ErrWrongNumArguments, tengo.ErrInvalidArgumentType{Name: "first", Expected: "int", Found: "string"},
+	tengo.ErrIndexOutOfBounds, tengo.ErrStackOverflow, tengo.ErrObjectAllocLimit, tengo.ErrStringLimit, tengo.ErrBytesLimit, tengo.ErrNotIndexAssignable,
+	tengo.ErrInvalidIndexType, tengo.ErrInvalidOperator, tengo.ErrNotIndexable, tengo.ErrNotImplemented}
 
 // C14_Unwrap: sentinel errors and host errors stay recognisable through
 // errors.Is / errors.As in the returned run-time error.
@@ -375,12 +385,20 @@ func C14_Unwrap() {
 		src, sentinel = `b := bytes("aaaa") + bytes("bbbb")`, tengo.ErrBytesLimit
 		tengo.MaxBytesLen = 6
 	case 5:
-		src = `out := hostfn(1)`
+		srcs := []string{`out := hostfn(1)`, `f := func(x) { return [hostfn(x)] }; out := f(1)`, `out := [1, 2, hostfn()]`}
+		src = srcs[vf.Choice("hostsrc", len(srcs))]
 	}
 	s := tengo.NewScript([]byte(src))
 	s.SetMaxAllocs(maxAllocs)
 	he := &hostErr{code: 42}
-	_ = s.Add("hostfn", &tengo.UserFunction{Name: "hostfn", Value: func(args ...tengo.Object) (tengo.Object, error) { return nil, he }})
+	var ret error = he
+	if k == 5 {
+		he.cause = hostCauses[vf.Choice("cause", len(hostCauses))]
+		if vf.Choice("wrapped", 2) == 1 {
+			ret = &hostErr{code: 1, cause: he} // the error is itself wrapped by the host
+		}
+	}
+	_ = s.Add("hostfn", &tengo.UserFunction{Name: "hostfn", Value: func(args ...tengo.Object) (tengo.Object, error) { return nil, ret }})
 	cc, err := s.Compile()
 	vf.Assert(err == nil, "compiles")
 	useCtx := vf.Choice("ctx", 2) == 1
@@ -394,8 +412,11 @@ func C14_Unwrap() {
 	vf.Assert(rerr != nil, "run fails")
 	if k == 5 {
 		var got *hostErr
-		vf.Assert(errors.As(rerr, &got) && got == he, "a host function's error is found by errors.As")
+		vf.Assert(errors.As(rerr, &got) && (got == he || got == ret), "a host function's error is found by errors.As")
 		vf.Assert(errors.Is(rerr, he), "a host function's error is found by errors.Is")
+		if he.cause != nil {
+			vf.Assert(errors.Is(rerr, he.cause), "what the host function's error wraps is found by errors.Is")
+		}
 	} else {
 		vf.Assert(errors.Is(rerr, sentinel), "the sentinel error is recognisable through unwrapping")
 	}
